@@ -112,6 +112,9 @@ func scenariosFor(prop string) []scn {
 		// the DLQ is still opening (unresponsive) while a record is already being rejected, then the force stop arrives
 		both(flowParams{Sources: 1, Records: 1, Batch: 1, Dests: 1, AckMenu: okNack, GateDLQOpen: true, Stop: "force"}, 3, 4)
 		both(flowParams{Sources: 1, Records: 2, Batch: 1, Dests: 2, AckMenu: okNack, GateDLQOpen: true, Stop: "force"}, 2, 3)
+		// a filtered record parked in the fan-out (the destination is still opening) when the force stop arrives
+		both(flowParams{Sources: 1, Records: 2, Batch: 1, Dests: 1, AckMenu: onlyOK, GateDestOpen: true, Blocked: []string{"d0"}, Procs: []procParam{{ID: "pp", Kinds: []string{"p", "f"}}}, Stop: "force"}, 2, 3)
+		both(flowParams{Sources: 1, Records: 3, Batch: 1, Dests: 2, AckMenu: onlyOK, GateDestOpen: true, Blocked: []string{"d1"}, Procs: []procParam{{ID: "pp", Kinds: []string{"p", "f", "f"}}}, Stop: "force"}, 2, 3)
 		// one ack response rejecting a record and confirming the next one, the DLQ write of the first still in flight
 		both(flowParams{Sources: 1, Records: 2, Batch: 1, Dests: 1, AckMenu: []string{"ok", "defernack"}, Stop: "force", Blocked: []string{"dlq"}}, 2, 3)
 		both(flowParams{Sources: 1, Records: 2, Batch: 2, Dests: 1, AckMenu: []string{"ok", "n:10"}, Stop: "force", Blocked: []string{"dlq"}}, 2, 3)
@@ -176,6 +179,9 @@ func scenariosFor(prop string) []scn {
 		v1(flowParams{Sources: 1, Records: 2, Batch: 1, Dests: 1, AckMenu: onlyOK, Procs: pp, Reconf: []string{"A", "B", "cancelA"}, ProcOpenMenu: []string{"ok"}}, 3, 4)
 		v1(flowParams{Sources: 1, Records: 2, Batch: 1, Dests: 1, AckMenu: onlyOK, Procs: pp, Reconf: []string{"A", "cancelA"}, ProcOpenMenu: []string{"ok", "err"}}, 2, 4)
 		v1(flowParams{Sources: 1, Records: 3, Batch: 1, Dests: 1, AckMenu: okNack, Procs: []procParam{{ID: "pp", Gate: true}}, Reconf: []string{"A"}, ProcOpenMenu: []string{"ok"}}, 2, 3)
+		// a provisioning apply that changes two processors in place, the second one's new configuration cannot be opened:
+		// the first one must be back on its previous configuration afterwards
+		v1(flowParams{Sources: 1, Records: 3, Batch: 1, Dests: 1, AckMenu: onlyOK, Procs: []procParam{{ID: "pp"}, {ID: "pq"}}, Apply: []string{"twoprocs"}, ProcOpenMenu: []string{"ok", "err"}}, 2, 3)
 		// the run is force-stopped (or fails) while the new processor is still inside Open, which then succeeds or fails
 		v1(flowParams{Sources: 1, Records: 2, Batch: 1, Dests: 1, AckMenu: onlyOK, Procs: pp, Reconf: []string{"A"}, ProcOpenMenu: []string{"ok", "err"}, Stop: "force"}, 2, 3)
 		v1(flowParams{Sources: 1, Records: 2, Batch: 1, Dests: 1, AckMenu: []string{"ok", "err"}, Procs: pp, Reconf: []string{"A"}, ProcOpenMenu: []string{"ok", "err"}}, 2, 3)
@@ -190,6 +196,8 @@ func scenariosFor(prop string) []scn {
 		both(flowParams{Sources: 1, Records: 2, Batch: 1, Dests: 1, AckMenu: onlyOK, Procs: pp, Apply: []string{"proc+stale"}}, 2, 3)
 		both(flowParams{Sources: 1, Records: 2, Batch: 1, Dests: 1, AckMenu: onlyOK, Procs: pp, Apply: []string{"conn+noauth"}}, 2, 3)
 		both(flowParams{Sources: 1, Records: 2, Batch: 1, Dests: 1, AckMenu: onlyOK, Procs: pp, Apply: []string{"proc", "||conn"}}, 2, 3)
+		// an unauthorised apply arriving while the pipeline waits for its recovery restart
+		both(flowParams{Sources: 1, Records: 2, Batch: 1, Dests: 1, AckMenu: []string{"ok", "err"}, Procs: pp, Apply: []string{"conn+noauth"}, Retries: 1}, 2, 3)
 		// a restart-class apply is draining the pipeline while a second, in-place apply is planned and submitted
 		both(flowParams{Sources: 1, Records: 2, Batch: 1, Dests: 1, AckMenu: onlyOK, Procs: pp, Apply: []string{"conn", "||proc"}}, 2, 3)
 		both(flowParams{Sources: 1, Records: 2, Batch: 1, Dests: 1, AckMenu: onlyOK, Procs: pp, Apply: []string{"conn", "proc"}, Stop: "stopwait"}, 1, 2)
